@@ -161,6 +161,21 @@ def build_clean_network(rng, N, families, class_jds, class_weights=None, assort=
                 (inside if rng.random() < assort else outside).append(v)
             inside.sort(key=lambda v: (cls[v], rng.random()))
             stubs = inside + outside
+        elif assort < 0:
+            # dis-assortative start: a fraction |assort| of the stubs is dealt round-robin over the classes, so that the
+            # motifs formed from them mix classes more than chance would
+            mixed, rest = [], []
+            for v in stubs:
+                (mixed if rng.random() < -assort else rest).append(v)
+            byc = {}
+            for v in mixed:
+                byc.setdefault(cls[v], []).append(v)
+            rr = []
+            while any(byc.values()):
+                for c in sorted(byc):
+                    if byc[c]:
+                        rr.append(byc[c].pop())
+            stubs = rr + rest
         stubs = stubs[: len(stubs) - len(stubs) % size]
         for i in range(0, len(stubs), size):
             motifs.append([t, stubs[i:i + size]])
@@ -209,7 +224,7 @@ def build_clean_network(rng, N, families, class_jds, class_weights=None, assort=
             continue
         o = motifs[j]
         a, b = rng.randrange(len(m[1])), rng.randrange(len(o[1]))
-        if assort > 0 and cls[m[1][a]] != cls[o[1][b]] and rng.random() < 0.9:
+        if assort != 0 and cls[m[1][a]] != cls[o[1][b]] and rng.random() < 0.9:
             continue
         before = conflicts(m) + conflicts(o)
         add(m, -1); add(o, -1)
